@@ -204,6 +204,8 @@ pub(crate) enum WaitOn {
     Chan(usize),
     Timer,
     Threads,
+    /// the exit of one thread (JoinHandle::join)
+    Exit(usize),
 }
 
 #[derive(Clone, Debug, PartialEq, Eq)]
@@ -237,6 +239,7 @@ pub(crate) struct Sock {
     pub rx_rst: bool,
     pub rst_seen: bool,
     pub read_timeout: Option<u64>,
+    pub write_timeout: Option<u64>,
     /// read half shut down locally (reads return Ok(0) once queued data is drained, later deliveries are discarded)
     pub local_shutdown: bool,
     /// write half shut down locally (writes fail with EPIPE, the peer sees EOF)
@@ -1082,6 +1085,7 @@ pub(crate) fn connect(addr: &SocketAddr, timeout_ns: u64) -> std::io::Result<(K,
                 rx_rst: false,
                 rst_seen: false,
                 read_timeout: None,
+                write_timeout: None,
                 local_shutdown: false,
                 local_shutdown_wr: false,
                 closed: false,
@@ -1197,6 +1201,7 @@ pub(crate) fn sock_write(k: &K, sock: usize, buf: &[u8]) -> std::io::Result<usiz
         g.log(me, "write0", sock as u64, 0);
         return Ok(0);
     }
+    let write_deadline = g.socks[sock].write_timeout.map(|d| g.now.saturating_add(d));
     if g.socks[sock].faults.write_eintr.contains(&op) {
         g.history.fault("eintr-write");
         g.log(me, "write-eintr", sock as u64, 0);
@@ -1231,7 +1236,14 @@ pub(crate) fn sock_write(k: &K, sock: usize, buf: &[u8]) -> std::io::Result<usiz
             let space = s.faults.window.saturating_sub(s.pending_to_peer.len());
             if space == 0 {
                 g.history.fault("peer-not-reading");
-                let (g2, _) = block(k, g, me, WaitOn::Sock(sock), None);
+                if let Some(dl) = write_deadline {
+                    if g.now >= dl {
+                        g.history.fault("write-timeout");
+                        g.log(me, "write-timeout", sock as u64, 0);
+                        return Err(E::WouldBlock.into());
+                    }
+                }
+                let (g2, _) = block(k, g, me, WaitOn::Sock(sock), write_deadline);
                 g = g2;
                 continue;
             }
@@ -1256,6 +1268,16 @@ pub(crate) fn sock_write(k: &K, sock: usize, buf: &[u8]) -> std::io::Result<usiz
 pub(crate) fn sock_set_read_timeout(k: &K, sock: usize, d: Option<u64>) {
     let mut g = k.lock();
     g.socks[sock].read_timeout = d;
+}
+
+pub(crate) fn sock_set_write_timeout(k: &K, sock: usize, d: Option<u64>) {
+    let mut g = k.lock();
+    g.socks[sock].write_timeout = d;
+}
+
+pub(crate) fn sock_timeouts(k: &K, sock: usize) -> (Option<u64>, Option<u64>) {
+    let g = k.lock();
+    (g.socks[sock].read_timeout, g.socks[sock].write_timeout)
 }
 
 pub(crate) fn sock_clone(k: &K, sock: usize) {
@@ -1364,6 +1386,7 @@ pub(crate) fn spawn(f: Box<dyn FnOnce() + Send + 'static>) -> usize {
             g.history.threads[tid].panicked = panicked;
             if !g.teardown {
                 g.log(tid, "exit", 0, 0);
+                g.wake_waiters(&WaitOn::Exit(tid));
                 if g.current == Some(tid) {
                     g.current = None;
                 }
@@ -1375,6 +1398,26 @@ pub(crate) fn spawn(f: Box<dyn FnOnce() + Send + 'static>) -> usize {
         .expect("spawn OS thread");
     g.threads[tid].handle = Some(handle);
     tid
+}
+
+/// JoinHandle::join: block until thread `tid` has exited; returns its panic message, if it panicked.
+pub(crate) fn join(tid: usize) -> Option<String> {
+    let (k, me) = cur();
+    let g = k.lock();
+    let mut g = yield_point(&k, g, me);
+    while g.threads[tid].st != ThSt::Exited {
+        let (g2, _) = block(&k, g, me, WaitOn::Exit(tid), None);
+        g = g2;
+    }
+    g.log(me, "join", tid as u64, 0);
+    g.history.threads[tid].panicked.clone()
+}
+
+pub(crate) fn is_finished(tid: usize) -> bool {
+    let (k, me) = cur();
+    let g = k.lock();
+    let g = yield_point(&k, g, me);
+    g.threads[tid].st == ThSt::Exited
 }
 
 // ------------------------------------------------------------------------------------------
